@@ -1449,6 +1449,10 @@ func (a *align) MaskUnique(refseq string, maskreplace string) (err error) {
 //   - total: The total number of sequences taken into account at each site (not always the number
 //     of sequences in the alignment if ignoreGaps or ignoreNs)
 func (a *align) MaxCharStats(ignoreGaps, ignoreNs bool) (out []uint8, occur []int, total []int) {
+	// No sequence (length -1): no site
+	if a.NbSequences() == 0 {
+		return []uint8{}, []int{}, []int{}
+	}
 	out = make([]uint8, a.Length())
 	occur = make([]int, a.Length())
 	total = make([]int, a.Length())
@@ -1760,6 +1764,10 @@ func (a *align) Pssm(log bool, pseudocount float64, normalization int) (pssm map
 	var normfactors map[uint8]float64
 	/* Entropy at each position */
 	var entropy []float64
+	if a.NbSequences() == 0 {
+		err = errors.New("cannot compute a pssm from an alignment without sequence")
+		return
+	}
 	alphabet = a.AlphabetCharacters()
 	for _, c := range alphabet {
 		if _, ok := pssm[c]; !ok {
@@ -2173,10 +2181,11 @@ func (a *align) CountDifferences() (alldiffs []string, diffs []map[string]int) {
 	var i, l, count int
 
 	alldiffs = make([]string, 0)
-	diffs = make([]map[string]int, a.NbSequences()-1)
+	diffs = make([]map[string]int, 0)
 	if a.NbSequences() < 2 {
 		return
 	}
+	diffs = make([]map[string]int, a.NbSequences()-1)
 
 	alldiffsmap = make(map[string]bool)
 	i = 0
